@@ -49,7 +49,10 @@ func (w Writer) Delete(
 	ctx context.Context,
 	keys ...Key,
 ) error {
-	return w.table.NewDelete().Where(gorp.MatchKeys[Key, Policy](keys...)).Exec(ctx, w.tx)
+	if err := w.table.NewDelete().Where(gorp.MatchKeys[Key, Policy](keys...)).Exec(ctx, w.tx); err != nil {
+		return err
+	}
+	return w.otg.DeleteManyResources(ctx, OntologyIDs(keys))
 }
 
 func (w Writer) SetOnRole(
